@@ -148,7 +148,8 @@ METHODS = ['call', 'getblockcount', 'getbalance', 'getbestblockhash', 'getblockh
            'signrawtransactionwithwallet', 'fundrawtransaction', 'submitblock', 'generatetoaddress', 'validateaddress', 'importaddress', 'dumpprivkey', 'unlockwallet', 'addnode']
 INDEXERROR_CONVERSIONS = {('getblock', -5), ('getblockheader', -5), ('getblockheader_verbose', -5), ('getrawtransaction', -5), ('getrawtransaction_verbose', -5),
                           ('gettransaction', -5), ('getblockhash', -8)}
-REPLY_KINDS = (['result'] + ['err%d' % c for c in REGISTERED + UNREGISTERED] + ['err_nocode', 'err_string', 'err_number', 'err_with_result', 'missing_result', 'nonjson', 'empty', 'nohttp', 'html500'])
+REPLY_KINDS = (['result'] + ['err%d' % c for c in REGISTERED + UNREGISTERED] + ['err_nocode', 'err_string', 'err_number', 'err_with_result', 'missing_result', 'nonjson', 'empty', 'nohttp', 'html500',
+                                                                                  'huge_exponent', 'deep_nesting', 'not_utf8_like', 'json_scalar'])
 
 
 def make_reply(kind, result_json):
@@ -172,6 +173,14 @@ def make_reply(kind, result_json):
         return Resp('')
     if kind == 'html500':
         return Resp('<html>500</html>', 500, 'Internal Server Error')
+    if kind == 'huge_exponent':
+        return Resp('{"result": 1e99999999999999999999999, "error": null, "id": 1}')
+    if kind == 'deep_nesting':
+        return Resp('[' * 100000)
+    if kind == 'not_utf8_like':
+        return Resp('{"result": "\\ud800", "error": null, "id": 1')
+    if kind == 'json_scalar':
+        return Resp('{"result": nul}')
     if kind == 'nohttp':
         return None
     raise KeyError(kind)
@@ -322,6 +331,7 @@ class AmountsReceived(Family):
             if mode == 'all':
                 fields += [('gettxout', '{"value": %s, "scriptPubKey": {"hex": "51"}, "bestblock": "%s"}' % (t, core_hex(H0)), lambda: p.gettxout(COutPoint(H0, 0))['txout'].nValue),
                            ('listunspent', '[{"txid": "%s", "vout": 0, "scriptPubKey": "51", "amount": %s}]' % (core_hex(H0), t), lambda: p.listunspent()[0]['amount']),
+                           ('listunspent with address', '[{"txid": "%s", "vout": 0, "address": "%s", "scriptPubKey": "51", "amount": %s}, {"txid": "%s", "vout": 1, "scriptPubKey": "52", "amount": %s}]' % (core_hex(H0), ADDR, t, core_hex(H0), t), lambda: (lambda r: r[0]['amount'] if r[0]['amount'] == r[1]['amount'] else ('differ', r[0]['amount'], r[1]['amount']))(p.listunspent())),
                            ('fundrawtransaction', '{"hex": "%s", "fee": %s, "changepos": -1}' % (TXHEX, t), lambda: p.fundrawtransaction(C.lib_tx(TXM))['fee']),
                            ('getinfo.balance', '{"balance": %s, "paytxfee": 0.0}' % t, lambda: p.getinfo()['balance']),
                            ('getinfo.paytxfee', '{"balance": 0, "paytxfee": %s}' % t, lambda: p.getinfo()['paytxfee'])]
@@ -412,7 +422,7 @@ class Hashes(Family):
             ('getrawtransaction block_hash', lambda: p.getrawtransaction(g, False, h), lambda ps: ps[2]),
             ('getrawtransaction verbose block_hash', lambda: p.getrawtransaction(g, True, h), lambda ps: ps[2]),
             ('gettransaction', lambda: p.gettransaction(h), lambda ps: ps[0]), ('gettxout', lambda: p.gettxout(COutPoint(h, 2)), lambda ps: ps[0]),
-            ('lockunspent', lambda: p.lockunspent(True, [COutPoint(g, 1), COutPoint(h, 2)]), lambda ps: ps[1][1]['txid']),
+            ('lockunspent', lambda: p.lockunspent(True, [COutPoint(g, 1), COutPoint(h, 2)]), lambda ps: ps[1][1]['txid'] if (ps[1][0] == {'txid': core_hex(g), 'vout': 1} and ps[1][1]['vout'] == 2 and len(ps[1]) == 2) else repr(ps[1])),
         ]:
             body = {'getblock': q(BLKHEX), 'getblockheader': q(HDRHEX), 'gettransaction': '{}', 'lockunspent': 'true',
                     'gettxout': '{"value": 1, "scriptPubKey": {"hex": "51"}, "bestblock": "%s"}' % core_hex(g)}.get(name.split()[0], q(TXHEX))
